@@ -80,6 +80,7 @@ type Case struct {
 	Spare int            `json:"spare"`
 	N     int            `json:"n"`
 	N2    int            `json:"n2,omitempty"`
+	Panic int            `json:"callback_panics_at,omitempty"` // > 0: the callback panics on that invocation
 	M     map[string]int `json:"m,omitempty"`
 }
 
@@ -89,7 +90,42 @@ type args struct {
 	n       int
 	spare   int
 	tracked []*tracked
+	// callbacks handed to the helper observe the arguments WHILE the helper runs
+	inPlaceIdx int    // slice argument the helper may rewrite (-1: none)
+	mapInPlace bool   // the helper may rewrite the map argument
+	mcopy      any    // deep copy of the map argument before the call
+	calls      int    // callback invocations so far
+	panicAt    int    // > 0: the callback panics on that invocation (the caller recovers)
+	during     string // first disturbance seen from inside a callback
 }
+
+type cbPanic struct{}
+
+// observe is called from inside every callback: a helper that is not in place must not have
+// touched its arguments at that moment either (a "rearrange and restore afterwards"
+// implementation shows here), and it may be asked to panic to see what an aborted call leaves.
+func (a *args) observe() {
+	a.calls++
+	if a.during == "" {
+		for i, f := range a.s {
+			if d := f.diff(i == a.inPlaceIdx); d != "" {
+				a.during = fmt.Sprintf("slice argument %d, seen from inside callback invocation %d: %s", i, a.calls, d)
+				break
+			}
+		}
+		if a.during == "" && !a.mapInPlace && a.mcopy != nil && !reflect.DeepEqual(a.m, a.mcopy) {
+			a.during = fmt.Sprintf("map argument, seen from inside callback invocation %d: %v became %v", a.calls, a.mcopy, a.m)
+		}
+	}
+	if a.panicAt > 0 && a.calls == a.panicAt {
+		panic(cbPanic{})
+	}
+}
+
+func (a *args) even(x int) bool  { a.observe(); return x%2 == 0 }
+func (a *args) inc(x int) int    { a.observe(); return x + 1 }
+func (a *args) mod2(x int) int   { a.observe(); return ((x % 2) + 2) % 2 }
+func (a *args) veven(v int) bool { a.observe(); return v%2 == 0 }
 
 // tracked is an outer container handed to a helper (the [][]T behind a spread variadic
 // parameter, a []map collection): sig describes its slots shallowly (which inner slice /
@@ -174,7 +210,7 @@ func veven(v int) bool { return v%2 == 0 }
 
 var adapters = []adapter{
 	{"Sum", -1, 1, func(a *args) any { return gogu.Sum(a.sl(0)) }},
-	{"SumBy", -1, 1, func(a *args) any { return gogu.SumBy(a.sl(0), inc) }},
+	{"SumBy", -1, 1, func(a *args) any { return gogu.SumBy(a.sl(0), a.inc) }},
 	{"Mean", -1, 1, func(a *args) any {
 		if len(a.sl(0)) == 0 {
 			return 0
@@ -183,16 +219,16 @@ var adapters = []adapter{
 	}},
 	{"IndexOf", -1, 1, func(a *args) any { return gogu.IndexOf(a.sl(0), a.n) }},
 	{"LastIndexOf", -1, 1, func(a *args) any { return gogu.LastIndexOf(a.sl(0), a.n) }},
-	{"Map", -1, 1, func(a *args) any { return gogu.Map(a.sl(0), inc) }},
-	{"ForEach", -1, 1, func(a *args) any { gogu.ForEach(a.sl(0), func(int) {}); return nil }},
-	{"ForEachRight", -1, 1, func(a *args) any { gogu.ForEachRight(a.sl(0), func(int) {}); return nil }},
-	{"Reduce", -1, 1, func(a *args) any { return gogu.Reduce(a.sl(0), func(x, acc int) int { return acc + x }, 0) }},
+	{"Map", -1, 1, func(a *args) any { return gogu.Map(a.sl(0), a.inc) }},
+	{"ForEach", -1, 1, func(a *args) any { gogu.ForEach(a.sl(0), func(int) { a.observe() }); return nil }},
+	{"ForEachRight", -1, 1, func(a *args) any { gogu.ForEachRight(a.sl(0), func(int) { a.observe() }); return nil }},
+	{"Reduce", -1, 1, func(a *args) any { return gogu.Reduce(a.sl(0), func(x, acc int) int { a.observe(); return acc + x }, 0) }},
 	{"Reverse", 0, 1, func(a *args) any { return gogu.Reverse(a.sl(0)) }},
 	{"Unique", -1, 1, func(a *args) any { return gogu.Unique(a.sl(0)) }},
-	{"UniqueBy", -1, 1, func(a *args) any { return gogu.UniqueBy(a.sl(0), mod2) }},
-	{"Every", -1, 1, func(a *args) any { return gogu.Every(a.sl(0), even) }},
-	{"Some", -1, 1, func(a *args) any { return gogu.Some(a.sl(0), even) }},
-	{"Partition", -1, 1, func(a *args) any { return gogu.Partition(a.sl(0), even) }},
+	{"UniqueBy", -1, 1, func(a *args) any { return gogu.UniqueBy(a.sl(0), a.mod2) }},
+	{"Every", -1, 1, func(a *args) any { return gogu.Every(a.sl(0), a.even) }},
+	{"Some", -1, 1, func(a *args) any { return gogu.Some(a.sl(0), a.even) }},
+	{"Partition", -1, 1, func(a *args) any { return gogu.Partition(a.sl(0), a.even) }},
 	{"Contains", -1, 1, func(a *args) any { return gogu.Contains(a.sl(0), a.n) }},
 	{"Duplicate", -1, 1, func(a *args) any { return gogu.Duplicate(a.sl(0)) }},
 	{"DuplicateWithIndex", -1, 1, func(a *args) any { return gogu.DuplicateWithIndex(a.sl(0)) }},
@@ -200,7 +236,7 @@ var adapters = []adapter{
 	{"Merge1", -1, 2, func(a *args) any { return gogu.Merge(a.sl(0), a.sl(1)) }},
 	{"Merge...", -1, 3, func(a *args) any { return gogu.Merge(a.sl(0), a.outer(a.sl(1), a.sl(2))...) }},
 	{"Intersection...", -1, 3, func(a *args) any { return gogu.Intersection(a.outer(a.sl(0), a.sl(1), a.sl(2))...) }},
-	{"IntersectionBy...", -1, 3, func(a *args) any { return gogu.IntersectionBy(mod2, a.outer(a.sl(0), a.sl(1), a.sl(2))...) }},
+	{"IntersectionBy...", -1, 3, func(a *args) any { return gogu.IntersectionBy(a.mod2, a.outer(a.sl(0), a.sl(1), a.sl(2))...) }},
 	{"Zip...", -1, 3, func(a *args) any {
 		x, y, z := a.sl(0), a.sl(1), a.sl(2)
 		if len(x) < 3 || len(y) < 3 || len(z) < 3 {
@@ -218,15 +254,15 @@ var adapters = []adapter{
 	{"Flatten", -1, 2, func(a *args) any { r, _ := gogu.Flatten[int]([]any{a.sl(0), []any{a.sl(1), 5}}); return r }},
 	{"Union", -1, 2, func(a *args) any { r, _ := gogu.Union[int]([]any{a.sl(0), a.sl(1)}); return r }},
 	{"Intersection", -1, 3, func(a *args) any { return gogu.Intersection(a.sl(0), a.sl(1), a.sl(2)) }},
-	{"IntersectionBy", -1, 2, func(a *args) any { return gogu.IntersectionBy(mod2, a.sl(0), a.sl(1)) }},
+	{"IntersectionBy", -1, 2, func(a *args) any { return gogu.IntersectionBy(a.mod2, a.sl(0), a.sl(1)) }},
 	{"Without", -1, 2, func(a *args) any { return gogu.Without[int, int](a.sl(0), a.sl(1)...) }},
 	{"Difference", -1, 2, func(a *args) any { return gogu.Difference(a.sl(0), a.sl(1)) }},
-	{"DifferenceBy", -1, 2, func(a *args) any { return gogu.DifferenceBy(a.sl(0), a.sl(1), mod2) }},
+	{"DifferenceBy", -1, 2, func(a *args) any { return gogu.DifferenceBy(a.sl(0), a.sl(1), a.mod2) }},
 	{"Chunk", -1, 1, func(a *args) any { return gogu.Chunk(a.sl(0), a.n%4+1) }},
 	{"Drop", -1, 1, func(a *args) any { return gogu.Drop(a.sl(0), a.n-3) }},
-	{"DropWhile", -1, 1, func(a *args) any { return gogu.DropWhile(a.sl(0), even) }},
-	{"DropRightWhile", -1, 1, func(a *args) any { return gogu.DropRightWhile(a.sl(0), even) }},
-	{"GroupBy", -1, 1, func(a *args) any { return gogu.GroupBy(a.sl(0), mod2) }},
+	{"DropWhile", -1, 1, func(a *args) any { return gogu.DropWhile(a.sl(0), a.even) }},
+	{"DropRightWhile", -1, 1, func(a *args) any { return gogu.DropRightWhile(a.sl(0), a.even) }},
+	{"GroupBy", -1, 1, func(a *args) any { return gogu.GroupBy(a.sl(0), a.mod2) }},
 	{"Zip", -1, 2, func(a *args) any {
 		x, y := a.sl(0), a.sl(1)
 		if len(x) < 2 || len(y) < 2 {
@@ -242,16 +278,16 @@ var adapters = []adapter{
 		return gogu.Unzip(x[:2], y[:2])
 	}},
 	{"ToSlice", -1, 1, func(a *args) any { return gogu.ToSlice(a.sl(0)...) }},
-	{"Filter", -1, 1, func(a *args) any { return gogu.Filter(a.sl(0), even) }},
-	{"Reject", 0, 1, func(a *args) any { return gogu.Reject(a.sl(0), even) }},
+	{"Filter", -1, 1, func(a *args) any { return gogu.Filter(a.sl(0), a.even) }},
+	{"Reject", 0, 1, func(a *args) any { return gogu.Reject(a.sl(0), a.even) }},
 	{"Shuffle", -1, 1, func(a *args) any { return gogu.Shuffle(a.sl(0)) }},
-	{"FindIndex", -1, 1, func(a *args) any { return gogu.FindIndex(a.sl(0), even) }},
-	{"FindLastIndex", -1, 1, func(a *args) any { return gogu.FindLastIndex(a.sl(0), even) }},
-	{"FindAll", -1, 1, func(a *args) any { return gogu.FindAll(a.sl(0), even) }},
+	{"FindIndex", -1, 1, func(a *args) any { return gogu.FindIndex(a.sl(0), a.even) }},
+	{"FindLastIndex", -1, 1, func(a *args) any { return gogu.FindLastIndex(a.sl(0), a.even) }},
+	{"FindAll", -1, 1, func(a *args) any { return gogu.FindAll(a.sl(0), a.even) }},
 	{"FindMin", -1, 1, func(a *args) any { return gogu.FindMin(a.sl(0)) }},
-	{"FindMinBy", -1, 1, func(a *args) any { return gogu.FindMinBy(a.sl(0), mod2) }},
+	{"FindMinBy", -1, 1, func(a *args) any { return gogu.FindMinBy(a.sl(0), a.mod2) }},
 	{"FindMax", -1, 1, func(a *args) any { return gogu.FindMax(a.sl(0)) }},
-	{"FindMaxBy", -1, 1, func(a *args) any { return gogu.FindMaxBy(a.sl(0), mod2) }},
+	{"FindMaxBy", -1, 1, func(a *args) any { return gogu.FindMaxBy(a.sl(0), a.mod2) }},
 	{"Nth", -1, 1, func(a *args) any { v, _ := gogu.Nth(a.sl(0), a.n-3); return v }},
 	{"Min", -1, 1, func(a *args) any { return gogu.Min(a.sl(0)...) }},
 	{"Max", -1, 1, func(a *args) any { return gogu.Max(a.sl(0)...) }},
@@ -288,33 +324,40 @@ var adapters = []adapter{
 	// map helpers
 	{"Keys", -1, 0, func(a *args) any { return gogu.Keys(a.m) }},
 	{"Values", -1, 0, func(a *args) any { return gogu.Values(a.m) }},
-	{"MapValues", -1, 0, func(a *args) any { return gogu.MapValues(a.m, inc) }},
-	{"MapKeys", -1, 0, func(a *args) any { return gogu.MapKeys(a.m, func(k string, v int) string { return k + "!" }) }},
-	{"MapEvery", -1, 0, func(a *args) any { return gogu.MapEvery(a.m, veven) }},
-	{"MapSome", -1, 0, func(a *args) any { return gogu.MapSome(a.m, veven) }},
+	{"MapValues", -1, 0, func(a *args) any { return gogu.MapValues(a.m, a.inc) }},
+	{"MapKeys", -1, 0, func(a *args) any { return gogu.MapKeys(a.m, func(k string, v int) string { a.observe(); return k + "!" }) }},
+	{"MapEvery", -1, 0, func(a *args) any { return gogu.MapEvery(a.m, a.veven) }},
+	{"MapSome", -1, 0, func(a *args) any { return gogu.MapSome(a.m, a.veven) }},
 	{"MapContains", -1, 0, func(a *args) any { return gogu.MapContains(a.m, a.n) }},
 	{"MapUnique", -1, 0, func(a *args) any { return gogu.MapUnique(a.m) }},
-	{"MapCollection", -1, 0, func(a *args) any { return gogu.MapCollection(a.m, inc) }},
-	{"Find", -1, 0, func(a *args) any { return gogu.Find(a.m, veven) }},
-	{"FindKey", -1, 0, func(a *args) any { return gogu.FindKey(a.m, veven) }},
-	{"FindByKey", -1, 0, func(a *args) any { return gogu.FindByKey(a.m, func(k string) bool { return k < "c" }) }},
+	{"MapCollection", -1, 0, func(a *args) any { return gogu.MapCollection(a.m, a.inc) }},
+	{"Find", -1, 0, func(a *args) any { return gogu.Find(a.m, a.veven) }},
+	{"FindKey", -1, 0, func(a *args) any { return gogu.FindKey(a.m, a.veven) }},
+	{"FindByKey", -1, 0, func(a *args) any { return gogu.FindByKey(a.m, func(k string) bool { a.observe(); return k < "c" }) }},
 	{"Invert", -1, 0, func(a *args) any { return gogu.Invert(a.m) }},
 	{"Pick", -1, 0, func(a *args) any { r, _ := gogu.Pick(a.m, "a", "c"); return r }},
-	{"PickBy", -1, 0, func(a *args) any { return gogu.PickBy(a.m, func(k string, v int) bool { return veven(v) }) }},
+	{"PickBy", -1, 0, func(a *args) any { return gogu.PickBy(a.m, func(k string, v int) bool { a.observe(); return veven(v) }) }},
 	{"Omit", -2, 0, func(a *args) any { return gogu.Omit(a.m, "a", "c") }},
-	{"OmitBy", -2, 0, func(a *args) any { return gogu.OmitBy(a.m, func(k string, v int) bool { return veven(v) }) }},
-	{"FilterMap", -1, 0, func(a *args) any { return gogu.FilterMap(a.m, veven) }},
+	{"OmitBy", -2, 0, func(a *args) any { return gogu.OmitBy(a.m, func(k string, v int) bool { a.observe(); return veven(v) }) }},
+	{"FilterMap", -1, 0, func(a *args) any { return gogu.FilterMap(a.m, a.veven) }},
 	{"Pluck", -1, 0, func(a *args) any { return gogu.Pluck(a.maps(a.m, a.m2(), a.m), "a") }},
 	{"PartitionMap", -1, 0, func(a *args) any {
-		return gogu.PartitionMap(a.maps(a.m2(), a.m, map[string]int{}), func(m map[string]int) bool { return len(m) > 1 })
+		return gogu.PartitionMap(a.maps(a.m2(), a.m, map[string]int{}), func(m map[string]int) bool { a.observe(); return len(m) > 1 })
 	}},
-	{"FilterMapCollection", -1, 0, func(a *args) any { return gogu.FilterMapCollection(a.maps(a.m2(), a.m), veven) }},
+	{"FilterMapCollection", -1, 0, func(a *args) any { return gogu.FilterMapCollection(a.maps(a.m2(), a.m), a.veven) }},
 	{"Filter2DMapCollection", -1, 0, func(a *args) any {
-		return gogu.Filter2DMapCollection([]map[string]map[string]int{{"x": a.m}}, func(m map[string]int) bool { return len(m) > 0 })
+		return gogu.Filter2DMapCollection([]map[string]map[string]int{{"x": a.m}}, func(m map[string]int) bool { a.observe(); return len(m) > 0 })
 	}},
 	{"FindMinByKey", -1, 0, func(a *args) any { v, _ := gogu.FindMinByKey(a.maps(a.m2(), a.m, a.m), "a"); return v }},
 	{"FindMaxByKey", -1, 0, func(a *args) any { v, _ := gogu.FindMaxByKey(a.maps(a.m, a.m2(), a.m), "a"); return v }},
 }
+
+// views: helpers that by design hand back a window of their argument (no copy). A later
+// in-place helper on that argument necessarily shows through; they are excluded as first
+// call of the in-place pairs (DESIGN C16 "Not asserted").
+var views = map[string]bool{"Drop": true, "Chunk": true, // windows of the argument slice
+	// collections of maps: the result holds the qualifying argument maps themselves
+	"FilterMapCollection": true, "Filter2DMapCollection": true, "PartitionMap": true}
 
 // immutable lists exported helpers whose arguments are strings or scalars only
 // (Go strings are immutable; nothing can be disturbed).
@@ -391,10 +434,20 @@ func run(w *core.Worker, c Case) {
 	}
 	a := mkArgs(c, c.S)
 	mcopy := deepCopy(a.m)
+	a.inPlaceIdx, a.mapInPlace, a.mcopy, a.panicAt = ad.inPlace, ad.inPlace == -2, mcopy, c.Panic
 	var res any
 	if p := core.Catch(func() { res = ad.call(a) }); p != nil {
-		// panics are judged by C11-C15; here only note them
-		w.Count("adapter_panics", 1)
+		if _, ours := p.(cbPanic); !ours {
+			// panics of the library are judged by C11-C15; here only note them
+			w.Count("adapter_panics", 1)
+			return
+		}
+		// our callback aborted the call: the arguments must be as they were all the same
+		w.Count("calls_aborted_by_a_panicking_callback", 1)
+		c.B = ""
+	}
+	if a.during != "" {
+		w.Violation("c16.argument-disturbed-during-call:"+ad.name, fmt.Sprintf("%s%v: %s", ad.name, c.S, a.during))
 		return
 	}
 	// 1. arguments after the call
@@ -487,7 +540,7 @@ func exportedHelpers() []string {
 func TestProp(t *testing.T) {
 	r := core.Start(t, "C16")
 	defer r.Finish()
-	r.Rule("cases = one call of an exported helper (single) or two calls sharing the first argument (pair); every slice argument lives inside a larger backing array with sentinel values before it, in its spare capacity (0, 1 or 8 slots) and behind it; after the call the whole backing array / every map entry must be unchanged (in-place helpers: only elements inside the original length of their one argument may change); the first call's result is deep-copied and must read the same after the second call (which gets different other arguments); the [][]T behind a spread variadic parameter and []map collections are tracked slot by slot (same inner slice/map in every slot, spare slots untouched); heap.Sort's returned slice must survive later in-place calls on the same argument; non-trivial = first argument has >= 2 elements; distinct by hash of the case")
+	r.Rule("cases = one call of an exported helper (single) or two calls sharing the first argument (pair); every slice argument lives inside a larger backing array with sentinel values before it, in its spare capacity (0, 1 or 8 slots) and behind it; after the call the whole backing array / every map entry must be unchanged (in-place helpers: only elements inside the original length of their one argument may change); the first call's result is deep-copied and must read the same after the second call (which gets different other arguments); the [][]T behind a spread variadic parameter and []map collections are tracked slot by slot (same inner slice/map in every slot, spare slots untouched); heap.Sort's returned slice must survive later in-place calls on the same argument; callbacks passed to a helper re-check the arguments from inside every invocation (not only after the call) and, in a quarter of the cases, panic at their k-th invocation, after which the recovered caller must still find its arguments unchanged; non-trivial = first argument has >= 2 elements; distinct by hash of the case")
 
 	// coverage of the adapter table against the package's exported functions
 	have := map[string]bool{}
@@ -537,6 +590,11 @@ func TestProp(t *testing.T) {
 						c.S = [][]int{}
 					}
 					emit(c)
+					if spare == 1 && i%4 == 0 { // the same arguments with a callback that panics at its k-th invocation
+						c2 := c
+						c2.Panic = 1 + i/4%4
+						emit(c2)
+					}
 				}
 			}
 		}
@@ -575,16 +633,33 @@ func TestProp(t *testing.T) {
 	// heap.Sort is in place on its argument AND hands back a slice: that result must survive later
 	// in-place calls on the same argument (Reverse, Reject, heap.FromSlice, heap.Sort with the
 	// opposite comparator), which rewrite the argument's elements.
-	nIP := r.Pick(300, 3000)
+	nIP := r.Pick(40, 400)
 	core.Monitor(r, "args-inplace-pairs", 0, func(emit func(Case)) {
 		rng := r.Rand("c16-inplace-pairs")
-		for _, b := range []string{"Reverse", "Reject", "heap.FromSlice", "heap.Sort<", "heap.Sort"} {
-			for i := 0; i < nIP; i++ {
-				s := gen(rng, 7)
-				for j := range s { // distinct values: every rearrangement is visible
-					s[j] = s[j]*10 + j
+		for _, a := range adapters {
+			if a.inPlace == -2 || views[a.name] || (a.inPlace == 0 && a.name != "heap.Sort") {
+				continue
+			}
+			bs := []string{"Reverse", "Reject", "heap.FromSlice", "heap.Sort<", "heap.Sort"}
+			if a.slices == 0 {
+				bs = []string{"Omit", "OmitBy"}
+			}
+			n := nIP
+			if a.name == "heap.Sort" {
+				n *= 6
+			}
+			for _, b := range bs {
+				for i := 0; i < n; i++ {
+					c := Case{A: a.name, B: b, Spare: []int{0, 1, 8}[i%3], N: rng.Intn(8), N2: rng.Intn(8), M: genM(rng), S: [][]int{}}
+					for k := 0; k < a.slices; k++ {
+						s := gen(rng, 7)
+						for j := range s { // distinct values: every rearrangement is visible
+							s[j] = s[j]*10 + j
+						}
+						c.S = append(c.S, s)
+					}
+					emit(c)
 				}
-				emit(Case{A: "heap.Sort", B: b, Spare: []int{0, 1, 8}[i%3], N: rng.Intn(8), N2: rng.Intn(8), M: map[string]int{}, S: [][]int{s}})
 			}
 		}
 	}, run)
